@@ -81,6 +81,34 @@ pub fn run() -> i32 {
             break;
         }
     }
+    // reference FFT: round trip, product vs schoolbook, split/merge
+    {
+        use crate::reference::fft;
+        let n = 64;
+        let a: Vec<f64> = (0..n).map(|_| rng.below(200) as f64 - 100.0).collect();
+        let b: Vec<f64> = (0..n).map(|_| rng.below(200) as f64 - 100.0).collect();
+        let fa = fft::fft(&a);
+        let fb = fft::fft(&b);
+        let back = fft::ifft(&fa);
+        if a.iter().zip(back.iter()).any(|(x, y)| (x - y).abs() > 1e-6) {
+            eprintln!("selftest: reference FFT round trip");
+            bad += 1;
+        }
+        let prod = fft::ifft(&fft::pmul(&fa, &fb));
+        let ai: Vec<i64> = a.iter().map(|x| *x as i64).collect();
+        let bi: Vec<i64> = b.iter().map(|x| *x as i64).collect();
+        let want = crate::reference::field::schoolbook_z(&ai, &bi);
+        if prod.iter().zip(want.iter()).any(|(x, y)| (x - *y as f64).abs() > 1e-4) {
+            eprintln!("selftest: reference FFT product != schoolbook");
+            bad += 1;
+        }
+        let (e, o) = fft::split(&fa);
+        let m = fft::merge(&e, &o);
+        if m.iter().zip(fa.iter()).any(|(x, y)| (*x - *y).norm2() > 1e-12) {
+            eprintln!("selftest: split/merge");
+            bad += 1;
+        }
+    }
     if bad > 0 {
         2
     } else {
